@@ -1,3 +1,503 @@
-/- C08: property theorems (none yet). -/
+/-
+C08 — Values cross the host/guest boundary unchanged.
+
+Part 1 (marshalling): the regenerated `api.Encode*/Decode*` (`Wz.Gen.ApiCodec`), the per-kind
+conversions of `callGoFunc` (`Wz.Model.Marshal`, as-is and repaired variants), the engines' view of a slot.
+Part 2 (locations): `backend.FunctionABI` (`Wz.Model.Abi`) for EVERY signature, by induction over the
+type list, instantiated with the regenerated register lists (`Wz.Gen.AbiRegs`); the Go-call stack view.
+Part 3: `Call`/`CallWithStack` slice sizing.
+-/
+import Wz.Model.Marshal
+import Wz.Model.Abi
+import Wz.Gen.AbiRegs
+import Wz.Proofs.C08_Abi
+
 namespace Wz.C08
+open Wz.Model.Marshal Wz.Gen.ApiCodec
+
+/-! ## Part 1a: the regenerated api codecs -/
+
+/-- `DecodeI32 (EncodeI32 v) = v` for every int32 (bit pattern). -/
+theorem api_roundtrip_i32 (v : BitVec 32) : DecodeI32 (EncodeI32 v) = v := by
+  unfold DecodeI32 EncodeI32
+  apply BitVec.eq_of_toNat_eq
+  simp only [BitVec.toNat_setWidth]
+  have := v.isLt
+  omega
+
+theorem api_roundtrip_u32 (v : BitVec 32) : DecodeU32 (EncodeU32 v) = v := by
+  unfold DecodeU32 EncodeU32
+  apply BitVec.eq_of_toNat_eq
+  simp only [BitVec.toNat_setWidth]
+  have := v.isLt
+  omega
+
+/-- The encoders of the 32-bit integer type produce canonical slots (upper half zero), in particular
+for negative int32 values. -/
+theorem api_slot_canonical (v : BitVec 32) : EncodeI32 v >>> 32 = 0#64 ∧ EncodeU32 v >>> 32 = 0#64 := by
+  unfold EncodeI32 EncodeU32
+  have := v.isLt
+  constructor <;>
+  · apply BitVec.eq_of_toNat_eq
+    simp only [BitVec.toNat_ushiftRight, BitVec.toNat_setWidth, Nat.shiftRight_eq_div_pow, BitVec.toNat_ofNat]
+    omega
+
+/-- The decoders read only the low half: a slot and its canonical form decode alike. -/
+theorem api_decode_low_half (s : BitVec 64) :
+    DecodeI32 s = DecodeI32 (canon .i32 s) ∧ DecodeU32 s = DecodeU32 (canon .i32 s) := by
+  unfold DecodeI32 DecodeU32 canon
+  constructor <;>
+  · apply BitVec.eq_of_toNat_eq
+    simp only [VT.is32, if_true, BitVec.toNat_setWidth]
+    omega
+
+/-- 64-bit and reference codecs are the identity on bit patterns. -/
+theorem api_identity_64 (v : BitVec 64) :
+    EncodeI64 v = v ∧ DecodeExternref (EncodeExternref v) = v ∧ EncodeExternref v = v := by
+  unfold EncodeI64 DecodeExternref EncodeExternref
+  exact ⟨rfl, rfl, rfl⟩
+
+/-- Float encoders (hand-written, identity on bit patterns). -/
+theorem api_roundtrip_f32 (v : BitVec 32) : DecodeF32 (EncodeF32 v) = v ∧ EncodeF32 v >>> 32 = 0#64 := by
+  unfold DecodeF32 EncodeF32
+  have := v.isLt
+  constructor <;>
+  · apply BitVec.eq_of_toNat_eq
+    simp only [BitVec.toNat_ushiftRight, BitVec.toNat_setWidth, Nat.shiftRight_eq_div_pow, BitVec.toNat_ofNat]
+    omega
+
+/-! ## Part 1b: float32 through float64 -/
+
+theorem or_quietBit_of_set (b : BitVec 32) (h : b.getLsbD 22 = true) : b ||| quietBit = b := by
+  apply BitVec.eq_of_getLsbD_eq
+  intro i hi
+  simp only [quietBit, BitVec.getLsbD_or, BitVec.getLsbD_twoPow]
+  by_cases h22 : 22 = i
+  · subst h22; simp [h]
+  · simp [h22]
+
+/-- Everything except a signalling NaN survives float32 -> float64 -> float32. -/
+theorem viaF64_id_of_not_snan (b : BitVec 32) (h : isSNaN32 b = false) : viaF64 b = b := by
+  unfold viaF64
+  unfold isSNaN32 at h
+  split
+  · rename_i hn
+    simp only [hn, Bool.true_and, Bool.not_eq_false'] at h
+    exact or_quietBit_of_set b h
+  · rfl
+
+/-- A signalling NaN does not (it is quieted): the general form of finding F6. -/
+theorem viaF64_changes_snan (b : BitVec 32) (h : isSNaN32 b = true) : viaF64 b ≠ b := by
+  unfold isSNaN32 at h
+  simp only [Bool.and_eq_true, Bool.not_eq_true'] at h
+  unfold viaF64
+  rw [if_pos h.1]
+  intro heq
+  have h1 : (b ||| quietBit).getLsbD 22 = b.getLsbD 22 := by rw [heq]
+  rw [BitVec.getLsbD_or, h.2] at h1
+  simp [quietBit, BitVec.getLsbD_twoPow] at h1
+
+/-- Any pair of conversions obeying the two IEEE laws composes to `viaF64`. -/
+theorem conv_viaF64 (c : F32Conv) (b : BitVec 32) : c.narrow (c.widen b) = viaF64 b := by
+  unfold viaF64
+  cases h : isNaN32 b
+  · simp [c.exact b h]
+  · simp [c.quiets b h]
+
+/-- Non-vacuity of `F32Conv` (this instance is NOT the IEEE encoding of float64; it only shows the laws are consistent). -/
+example : F32Conv :=
+  { widen := fun b => (viaF64 b).setWidth 64, narrow := fun d => d.setWidth 32,
+    exact := by
+      intro b h
+      have : viaF64 b = b := by unfold viaF64; simp [h]
+      rw [this]; apply BitVec.eq_of_toNat_eq; simp only [BitVec.toNat_setWidth]; have := b.isLt; omega
+    quiets := by
+      intro b h
+      have : viaF64 b = b ||| quietBit := by unfold viaF64; simp [h]
+      rw [this]; apply BitVec.eq_of_toNat_eq; simp only [BitVec.toNat_setWidth]; have := (b ||| quietBit).isLt; omega }
+
+/-! ## Part 1c: callGoFunc -/
+
+theorem setWidth_32_64_32 (x : BitVec 32) : (x.setWidth 64).setWidth 32 = x := by
+  apply BitVec.eq_of_toNat_eq
+  simp only [BitVec.toNat_setWidth]
+  have := x.isLt
+  omega
+
+theorem signExtend_64_setWidth_32 (x : BitVec 32) : (x.signExtend 64).setWidth 32 = x := by
+  apply BitVec.eq_of_getLsbD_eq
+  intro i hi
+  simp only [BitVec.getLsbD_setWidth, BitVec.getLsbD_signExtend]
+  simp [hi]
+  omega
+
+/-- FULL STATEMENT (`marshal_roundtrip`): for every kind and every value, what a reflected host function
+returns and what a reflected host function then receives from that slot is the same value:
+`decodeParam (encodeResult x) = x`.  Proved at full strength for the repaired variant … -/
+theorem marshal_roundtrip_repaired (k : Kind) (x : BitVec k.width) :
+    decodeParam repaired k (encodeResult repaired k x) = x := by
+  cases k <;> simp only [decodeParam, encodeResult, repaired, if_true] <;> first | rfl | exact setWidth_32_64_32 x
+
+/-- … and for the as-is variant (the pinned tree) for every kind except float32 (int32 included: the
+sign-extended slot decodes back to the same int32) … -/
+theorem marshal_roundtrip_partial (k : Kind) (hk : k ≠ .float32) (x : BitVec k.width) :
+    decodeParam asIs k (encodeResult asIs k x) = x := by
+  cases k <;> simp only [decodeParam, encodeResult, asIs, Bool.false_eq_true, if_false] <;>
+    first | rfl | exact setWidth_32_64_32 x | exact signExtend_64_setWidth_32 x | exact absurd rfl hk
+
+/-- … and for float32 whenever the value is not a signalling NaN (what is missing: signalling NaNs, F6). -/
+theorem marshal_roundtrip_f32_partial (x : BitVec 32) (h : isSNaN32 x = false) :
+    decodeParam asIs .float32 (encodeResult asIs .float32 x) = x := by
+  simp only [decodeParam, encodeResult, asIs, Bool.false_eq_true, if_false]
+  rw [viaF64_id_of_not_snan x h, setWidth_32_64_32, viaF64_id_of_not_snan x h]
+
+/-- Non-vacuity: ordinary values, infinities, quiet NaNs with payload meet the hypothesis. -/
+example : isSNaN32 0x7fc12345#32 = false ∧ isSNaN32 0xff800000#32 = false ∧ isSNaN32 0x80000000#32 = false := by decide
+
+/-- F6 witness (test on a sample, by evaluation): the signalling NaN `0x7fa00001` arrives at a reflected
+float32 parameter as `0x7fe00001`, and is returned by a reflected float32 result as `0x7fe00001`. -/
+theorem f32_snan_witness :
+    isSNaN32 0x7fa00001#32 = true ∧
+    decodeParam asIs .float32 0x7fa00001#64 = 0x7fe00001#32 ∧
+    encodeResult asIs .float32 0x7fa00001#32 = 0x7fe00001#64 := by decide
+
+/-- F6 in general: on the as-is variant EVERY signalling NaN is changed in both directions. -/
+theorem f32_snan_always_changed (x : BitVec 32) (h : isSNaN32 x = true) :
+    decodeParam asIs .float32 (x.setWidth 64) ≠ x ∧ encodeResult asIs .float32 x ≠ x.setWidth 64 := by
+  simp only [decodeParam, encodeResult, asIs, Bool.false_eq_true, if_false, setWidth_32_64_32]
+  refine ⟨viaF64_changes_snan x h, ?_⟩
+  intro heq
+  have := congrArg (BitVec.setWidth 32) heq
+  rw [setWidth_32_64_32, setWidth_32_64_32] at this
+  exact viaF64_changes_snan x h this
+
+/-- Parameter direction, FULL STATEMENT: the host receives exactly the low `width` bits of the slot the
+guest passed.  Repaired variant: every kind, every slot. -/
+theorem param_exact_repaired (k : Kind) (s : BitVec 64) : decodeParam repaired k s = s.setWidth k.width := by
+  cases k <;> simp only [decodeParam, repaired, if_true] <;> first | rfl | (simp only [BitVec.setWidth_eq])
+
+/-- As-is variant: every kind except float32 … -/
+theorem param_exact_partial (k : Kind) (hk : k ≠ .float32) (s : BitVec 64) :
+    decodeParam asIs k s = s.setWidth k.width := by
+  cases k <;> simp only [decodeParam] <;> first | rfl | (simp only [BitVec.setWidth_eq]) | exact absurd rfl hk
+
+/-- … and float32 when the slot does not hold a signalling NaN. -/
+theorem param_exact_f32_partial (s : BitVec 64) (h : isSNaN32 (s.setWidth 32) = false) :
+    decodeParam asIs .float32 s = s.setWidth 32 := by
+  simp only [decodeParam, asIs, Bool.false_eq_true, if_false]
+  exact viaF64_id_of_not_snan _ h
+
+/-- The upper half of a 32-bit slot never reaches the host (the compiler's trampoline writes only four
+bytes of such a slot): any variant, any kind. -/
+theorem param_ignores_upper_half (v : Variant) (k : Kind) (s : BitVec 64) :
+    decodeParam v k s = decodeParam v k (canon k.vt s) := by
+  have h : ((s.setWidth 32).setWidth 64).setWidth 32 = s.setWidth 32 := setWidth_32_64_32 _
+  cases k <;> simp only [decodeParam, canon, Kind.vt, VT.is32, if_true, Bool.false_eq_true, if_false, h]
+
+/-- Result direction, FULL STATEMENT (`slot_canonical` + exactness): the slot a reflected host function's
+result is stored in is the zero-extended bit pattern of the value (so it is canonical, and both engines
+read the same thing).  Repaired variant: every kind and value. -/
+theorem result_exact_repaired (k : Kind) (x : BitVec k.width) :
+    encodeResult repaired k x = x.setWidth 64 ∧ canonical k.vt (encodeResult repaired k x) = true := by
+  cases k <;> simp only [encodeResult, repaired, if_true, canonical, Kind.vt, VT.is32, Bool.not_true, Bool.not_false,
+    Bool.false_or, Bool.true_or, BitVec.setWidth_eq, and_self, true_and] <;>
+  · have : x.toNat < 2 ^ 32 := x.isLt
+    simp only [beq_iff_eq]
+    apply BitVec.eq_of_toNat_eq
+    simp only [BitVec.toNat_ushiftRight, BitVec.toNat_setWidth, Nat.shiftRight_eq_div_pow, BitVec.toNat_ofNat]
+    omega
+
+theorem slot_canonical_repaired (k : Kind) (x : BitVec k.width) :
+    canonical k.vt (encodeResult repaired k x) = true := (result_exact_repaired k x).2
+
+/-- As-is variant: canonical for every kind except int32 and (exactness) float32 … -/
+theorem slot_canonical_partial (k : Kind) (hk : k ≠ .int32) (x : BitVec k.width) :
+    canonical k.vt (encodeResult asIs k x) = true := by
+  cases k <;> simp only [encodeResult, asIs, Bool.false_eq_true, if_false, canonical, Kind.vt, VT.is32, Bool.not_true,
+    Bool.not_false, Bool.false_or, Bool.true_or] <;> first
+  | exact absurd rfl hk
+  | (simp only [beq_iff_eq]
+     apply BitVec.eq_of_toNat_eq
+     simp only [BitVec.toNat_ushiftRight, BitVec.toNat_setWidth, Nat.shiftRight_eq_div_pow, BitVec.toNat_ofNat]
+     first
+     | (have : x.toNat < 2 ^ 32 := x.isLt; omega)
+     | (have : (viaF64 x).toNat < 2 ^ 32 := (viaF64 x).isLt; omega))
+
+/-- … and for int32 exactly when the value is non-negative (what is missing: negative int32, F5). -/
+theorem slot_canonical_int32_iff (x : BitVec 32) :
+    canonical .i32 (encodeResult asIs .int32 x) = true ↔ x.msb = false := by
+  simp only [encodeResult, asIs, Bool.false_eq_true, if_false, canonical, VT.is32, Bool.not_true, Bool.false_or, beq_iff_eq]
+  constructor
+  · intro h
+    cases hm : x.msb
+    · rfl
+    · exfalso
+      have h63 : ((x.signExtend 64) >>> 32).getLsbD 0 = (0#64).getLsbD 0 := by rw [h]
+      simp [BitVec.getLsbD_ushiftRight, BitVec.getLsbD_signExtend, BitVec.getElem_signExtend, hm] at h63
+  · intro hm
+    rw [BitVec.signExtend_eq_setWidth_of_msb_false hm]
+    apply BitVec.eq_of_toNat_eq
+    have := x.isLt
+    simp only [BitVec.toNat_ushiftRight, BitVec.toNat_setWidth, Nat.shiftRight_eq_div_pow, BitVec.toNat_ofNat]
+    omega
+
+/-- F5 witness: a reflected host function returning `int32(-1)` stores `0xFFFFFFFF_FFFFFFFF`; the slot is
+not canonical; the interpreter then evaluates `x != -1` (i32.ne against i32.const -1) to true, the compiler
+to false. -/
+theorem int32_result_witness :
+    encodeResult asIs .int32 0xffffffff#32 = 0xffffffffffffffff#64 ∧
+    canonical .i32 (encodeResult asIs .int32 0xffffffff#32) = false ∧
+    wasmNeI32 .interpreter (encodeResult asIs .int32 0xffffffff#32) 0xffffffff#32 = true ∧
+    wasmNeI32 .compiler (encodeResult asIs .int32 0xffffffff#32) 0xffffffff#32 = false := by decide
+
+/-- Repaired: the same value gives a canonical slot and both engines answer false. -/
+theorem int32_result_repaired_witness :
+    encodeResult repaired .int32 0xffffffff#32 = 0x00000000ffffffff#64 ∧
+    wasmNeI32 .interpreter (encodeResult repaired .int32 0xffffffff#32) 0xffffffff#32 = false ∧
+    wasmNeI32 .compiler (encodeResult repaired .int32 0xffffffff#32) 0xffffffff#32 = false := by decide
+
+/-- A canonical slot is read identically by both engines, for every type and slot. -/
+theorem canonical_engine_independent (t : VT) (s : BitVec 64) (h : canonical t s = true) :
+    guestView .interpreter t s = guestView .compiler t s := by
+  unfold guestView canon
+  unfold canonical at h
+  cases ht : t.is32
+  · simp
+  · simp only [ht, Bool.not_true, Bool.false_or, beq_iff_eq] at h
+    simp only [if_true]
+    apply BitVec.eq_of_toNat_eq
+    have h2 := congrArg BitVec.toNat h
+    simp only [BitVec.toNat_ushiftRight, Nat.shiftRight_eq_div_pow, BitVec.toNat_ofNat] at h2
+    simp only [BitVec.toNat_setWidth]
+    have := s.isLt
+    omega
+
+/-- Non-vacuity: a concrete canonical slot of a 32-bit type with the sign bit set. -/
+example : canonical .i32 0x00000000ffffffff#64 = true ∧ canonical .f32 0x000000007fa00001#64 = true := by decide
+
+/-- Echo through a reflected host function (guest passes slot `s`, host returns what it received):
+the guest gets back the canonical slot of the same value — repaired variant, every kind and slot. -/
+theorem echo_repaired (k : Kind) (s : BitVec 64) :
+    encodeResult repaired k (decodeParam repaired k s) = canon k.vt s := by
+  cases k <;> simp only [decodeParam, encodeResult, repaired, if_true, canon, Kind.vt, VT.is32, Bool.false_eq_true, if_false]
+
+/-- `C08` for the marshalling layer, assembled (repaired variant; the as-is variant satisfies the same
+statement on the inputs delimited by the `_partial` theorems above): for every kind and every canonical
+slot the guest passes, (1) the host receives exactly its value, (2) echoing it back yields exactly that
+slot, (3) which both engines read identically. -/
+theorem C08_marshal_repaired (k : Kind) (s : BitVec 64) (hs : canonical k.vt s = true) :
+    decodeParam repaired k s = s.setWidth k.width ∧
+    encodeResult repaired k (decodeParam repaired k s) = s ∧
+    guestView .interpreter k.vt (encodeResult repaired k (decodeParam repaired k s)) =
+      guestView .compiler k.vt (encodeResult repaired k (decodeParam repaired k s)) := by
+  have hc : canon k.vt s = s := by
+    have := canonical_engine_independent k.vt s hs
+    simpa [guestView] using this.symm
+  refine ⟨param_exact_repaired k s, ?_, ?_⟩
+  · rw [echo_repaired, hc]
+  · rw [echo_repaired, hc]; exact canonical_engine_independent _ _ hs
+
+
+/-! ## Part 2: argument/result locations for every signature -/
+
+section Abi
+open Wz.Model.Abi Wz.C08.AbiLemmas Wz.Gen.AbiRegs
+
+/-- Two located values do not clash: their stack bytes do not overlap and they are not in the same register. -/
+def NoClash (a b : Arg) : Prop :=
+  (∀ oa ob, a.loc = .stack oa → b.loc = .stack ob → oa + a.ty.slotSize ≤ ob ∨ ob + b.ty.slotSize ≤ oa) ∧
+  (∀ c r, a.loc = .reg c r → b.loc ≠ .reg c r)
+
+theorem Sep.noClash {a b : Arg} (h : Sep a b) : NoClash a b ∧ NoClash b a :=
+  ⟨⟨fun oa ob ha hb => Or.inl (h.1 oa ob ha hb), h.2⟩,
+   ⟨fun oa ob ha hb => Or.inr (h.1 ob oa hb ha), fun c r hb ha => h.2 c r ha hb⟩⟩
+
+/-- `abi_locations_injective`, FULL STATEMENT, for EVERY type list (unbounded arity; induction over the
+list in `AbiLemmas`) and every pair of duplicate-free register lists: (1) no two values share a register
+or overlapping stack bytes; (2) every stack value lies inside `[0, stackSize)`; (3) register values are in
+a register of their own class taken from the list; (4) indices and types are those of the signature.
+`setABIArgs` is used for parameters and results alike, so this covers both. -/
+theorem abi_locations_injective (ints floats : List Nat) (hI : ints.Nodup) (hF : floats.Nodup) (tys : List Ty) :
+    (∀ (i j : Nat) (hi : i < (setABIArgs ints floats tys).1.length) (hj : j < (setABIArgs ints floats tys).1.length),
+        i ≠ j → NoClash (setABIArgs ints floats tys).1[i] (setABIArgs ints floats tys).1[j]) ∧
+    (∀ a ∈ (setABIArgs ints floats tys).1, ∀ o, a.loc = .stack o → o + a.ty.slotSize ≤ (setABIArgs ints floats tys).2) ∧
+    (∀ a ∈ (setABIArgs ints floats tys).1, ∀ r, a.loc = .reg true r → a.ty.isInt = true ∧ r ∈ ints) ∧
+    (∀ a ∈ (setABIArgs ints floats tys).1, ∀ r, a.loc = .reg false r → a.ty.isInt = false ∧ r ∈ floats) ∧
+    (setABIArgs ints floats tys).1.map Arg.index = List.range tys.length ∧
+    (setABIArgs ints floats tys).1.map Arg.ty = tys := by
+  have hp := assign_pairwise ints floats hI hF tys st0 0
+  have hg := assign_good ints floats tys st0 0
+  have hx := assign_index_ty ints floats tys st0 0
+  simp only [setABIArgs]
+  refine ⟨?_, ?_, ?_, ?_, ?_, hx.2⟩
+  · intro i j hi hj hne
+    rw [List.pairwise_iff_getElem] at hp
+    rcases Nat.lt_or_gt_of_ne hne with h | h
+    · exact (Sep.noClash (hp i j hi hj h)).1
+    · exact (Sep.noClash (hp j i hj hi h)).2
+  · intro a ha o ho; exact ((hg.2 a ha).stack o ho).2
+  · intro a ha r hr
+    obtain ⟨ht, j, _, hj⟩ := (hg.2 a ha).regI r hr
+    exact ⟨ht, List.mem_of_getElem? hj⟩
+  · intro a ha r hr
+    obtain ⟨ht, j, _, hj⟩ := (hg.2 a ha).regF r hr
+    exact ⟨ht, List.mem_of_getElem? hj⟩
+  · rw [hx.1, List.range_eq_range']
+
+/-- Register-class counts (`ArgIntRealRegs` etc.): exactly `min(list length, number of values of the class)`,
+so they never exceed the lists. -/
+theorem abi_reg_counts (ints floats : List Nat) (tys : List Ty) :
+    ((setABIArgs ints floats tys).1.filter isRegInt).length = min ints.length (countInt tys) ∧
+    ((setABIArgs ints floats tys).1.filter isRegFloat).length = min floats.length (countFloat tys) := by
+  have h1 := assign_reg_counts ints floats tys st0 0
+  have h2 := finalSt_cursors ints floats tys st0 (Nat.zero_le _) (Nat.zero_le _)
+  simp only [setABIArgs, st0] at h1 h2 ⊢
+  omega
+
+/-- `abi_cliffs`, FULL STATEMENT: in any signature `pre ++ t :: post` the value `t` (index `pre.length`)
+goes to the stack exactly when the number of values of its class before it has reached the length of that
+class's register list — i.e. the (k+1)-th int/float is on the stack iff k ≥ list length. -/
+theorem abi_cliffs (ints floats : List Nat) (pre post : List Ty) (t : Ty) :
+    ∃ a, (setABIArgs ints floats (pre ++ t :: post)).1[pre.length]? = some a ∧ a.index = pre.length ∧ a.ty = t ∧
+      ((∃ o, a.loc = .stack o) ↔
+        (if t.isInt then ints.length ≤ countInt pre else floats.length ≤ countFloat pre)) := by
+  have hc := finalSt_cursors ints floats pre st0 (Nat.zero_le _) (Nat.zero_le _)
+  simp only [st0, Nat.zero_add] at hc
+  refine ⟨⟨pre.length, t, (place ints floats (finalSt ints floats st0 pre) t).1⟩, ?_, rfl, rfl, ?_⟩
+  · simp only [setABIArgs, assign_append, assign, Nat.zero_add]
+    rw [List.getElem?_append_right (by rw [assign_length]; exact Nat.le_refl _)]
+    simp [assign_length]
+  · simp only [st0] at *
+    rcases place_cases ints floats (finalSt ints floats ⟨0, 0, 0⟩ pre) t with
+      ⟨r, ht, he, h⟩ | ⟨ht, he, h⟩ | ⟨r, ht, he, h⟩ | ⟨ht, he, h⟩
+    · have hlt : (finalSt ints floats ⟨0, 0, 0⟩ pre).ii < ints.length := by
+        rcases List.getElem?_eq_some_iff.mp he with ⟨h', _⟩; exact h'
+      simp only [h, ht, if_true]
+      constructor
+      · rintro ⟨o, ho⟩; simp at ho
+      · intro hle; omega
+    · have hge : ints.length ≤ (finalSt ints floats ⟨0, 0, 0⟩ pre).ii := by simpa using he
+      simp only [h, ht, if_true]
+      exact ⟨fun _ => by omega, fun _ => ⟨_, rfl⟩⟩
+    · have hlt : (finalSt ints floats ⟨0, 0, 0⟩ pre).fi < floats.length := by
+        rcases List.getElem?_eq_some_iff.mp he with ⟨h', _⟩; exact h'
+      simp only [h, ht, Bool.false_eq_true, if_false]
+      constructor
+      · rintro ⟨o, ho⟩; simp at ho
+      · intro hle; omega
+    · have hge : floats.length ≤ (finalSt ints floats ⟨0, 0, 0⟩ pre).fi := by simpa using he
+      simp only [h, ht, Bool.false_eq_true, if_false]
+      exact ⟨fun _ => by omega, fun _ => ⟨_, rfl⟩⟩
+
+/-- The regenerated register lists of the real back ends satisfy the hypotheses: no duplicates, the two
+classes are disjoint, lengths 9/8 (amd64) and 8/8 (arm64).  (`decide` over the regenerated finite table.) -/
+theorem regs_ok :
+    amd64IntArgResultRegs.Nodup ∧ amd64FloatArgResultRegs.Nodup ∧
+    amd64IntArgResultRegs.length = 9 ∧ amd64FloatArgResultRegs.length = 8 ∧
+    (∀ r ∈ amd64IntArgResultRegs, r ∉ amd64FloatArgResultRegs) ∧
+    arm64IntArgResultRegs.Nodup ∧ arm64FloatArgResultRegs.Nodup ∧
+    arm64IntArgResultRegs.length = 8 ∧ arm64FloatArgResultRegs.length = 8 ∧
+    (∀ r ∈ arm64IntArgResultRegs, r ∉ arm64FloatArgResultRegs) := by decide
+
+/-- Non-vacuity of `abi_locations_injective` for the real lists, on a signature crossing both cliffs with
+a vector on the stack (evaluation of the model, a test). -/
+example :
+    (setABIArgs amd64IntArgResultRegs amd64FloatArgResultRegs
+      [.i64, .i64, .i32, .i32, .i32, .i32, .i32, .i32, .i32, .i32, .f32, .f32, .f32, .f32, .f32, .f32, .f32, .f32, .v128, .i64]).2 = 32 := by
+  decide
+
+/-- The cliff as the property text states it for amd64: a wasm-level signature is compiled with two leading
+i64 parameters (execution context, module context); a wasm integer parameter preceded by `k` integer
+parameters is passed on the stack iff `k ≥ 7`, a float parameter preceded by `k` floats iff `k ≥ 8`. -/
+theorem abi_cliffs_wasm_amd64 (pre post : List Ty) (t : Ty) :
+    ∃ a, (setABIArgs amd64IntArgResultRegs amd64FloatArgResultRegs (.i64 :: .i64 :: (pre ++ t :: post))).1[pre.length + 2]?
+        = some a ∧ a.index = pre.length + 2 ∧ a.ty = t ∧
+      ((∃ o, a.loc = .stack o) ↔ (if t.isInt then 7 ≤ countInt pre else 8 ≤ countFloat pre)) := by
+  obtain ⟨a, h1, h2, h3, h4⟩ :=
+    abi_cliffs amd64IntArgResultRegs amd64FloatArgResultRegs (.i64 :: .i64 :: pre) post t
+  refine ⟨a, by simpa using h1, by simpa using h2, h3, ?_⟩
+  rw [h4]
+  have hi : amd64IntArgResultRegs.length = 9 := by decide
+  have hf : amd64FloatArgResultRegs.length = 8 := by decide
+  have c1 : countInt (.i64 :: .i64 :: pre) = countInt pre + 2 := by
+    unfold countInt
+    rw [List.filter_cons_of_pos (by rfl), List.filter_cons_of_pos (by rfl)]
+    simp
+  have c2 : countFloat (.i64 :: .i64 :: pre) = countFloat pre := by
+    unfold countFloat
+    rw [List.filter_cons_of_neg (by decide), List.filter_cons_of_neg (by decide)]
+  rw [hi, hf, c1, c2]
+  split <;> omega
+
+/-- `FunctionABI.Init`: the four byte counters are the exact counts (no wrap-around of the Go `byte`), hence
+never exceed the register lists; both stack sizes bound their values (by `abi_locations_injective`). -/
+theorem abi_init_counts (ints floats : List Nat) (hi : ints.length < 256) (hf : floats.length < 256) (ps rs : List Ty) :
+    (abiInit ints floats ps rs).argIntRealRegs = min ints.length (countInt ps) ∧
+    (abiInit ints floats ps rs).argFloatRealRegs = min floats.length (countFloat ps) ∧
+    (abiInit ints floats ps rs).retIntRealRegs = min ints.length (countInt rs) ∧
+    (abiInit ints floats ps rs).retFloatRealRegs = min floats.length (countFloat rs) := by
+  have hp := abi_reg_counts ints floats ps
+  have hr := abi_reg_counts ints floats rs
+  simp only [abiInit, hp.1, hp.2, hr.1, hr.2]
+  refine ⟨?_, ?_, ?_, ?_⟩ <;> (apply Nat.mod_eq_of_lt; omega)
+
+/-- `AlignedArgResultStackSlotSize`: a multiple of 16 that covers both areas with less than 16 bytes of padding. -/
+theorem aligned_slot_size (a : FunctionABI) (s : Nat) (h : a.alignedSlotSize = some s) :
+    s % 16 = 0 ∧ a.retStackSize + a.argStackSize ≤ s ∧ s < a.retStackSize + a.argStackSize + 16 := by
+  unfold FunctionABI.alignedSlotSize at h
+  simp only at h
+  split at h
+  · simp at h
+  · simp only [Option.some.injEq] at h
+    omega
+
+/-! ### the Go-call stack view -/
+
+/-- `stackview_bijective`, FULL STATEMENT, every type list: the map (value i, half h) ↦ slot
+`slotIndex i + h` used by the trampolines for parameters in and results out, and `slotOwner`, are inverse
+to each other, and together cover exactly the slots `[0, totalSlots)` (v128 = 2 slots). -/
+theorem stackview_bijective (tys : List Ty) :
+    (∀ i h t, tys[i]? = some t → h < t.goSlots →
+        slotIndex tys i + h < totalSlots tys ∧ slotOwner tys (slotIndex tys i + h) = some (i, h)) ∧
+    (∀ s, s < totalSlots tys →
+        ∃ i h t, slotOwner tys s = some (i, h) ∧ tys[i]? = some t ∧ h < t.goSlots ∧ slotIndex tys i + h = s) :=
+  ⟨fun i h t ht hh => ⟨slotIndex_lt_total tys i h t ht hh, slotOwner_slotIndex tys i h t ht hh⟩,
+   slotOwner_total tys⟩
+
+/-- For host functions (no vectors): slot i is parameter i in and result i out. -/
+theorem stackview_identity (tys : List Ty) (hv : ∀ t ∈ tys, t ≠ .v128) (i : Nat) (hi : i ≤ tys.length) :
+    slotIndex tys i = i := slotIndex_no_v128 tys hv i hi
+
+/-- Non-vacuity / sample: a vector shifts the following slots by one. -/
+example : slotIndex [.i32, .v128, .f64] 2 = 3 ∧ slotOwner [.i32, .v128, .f64] 2 = some (1, 1) ∧
+    totalSlots [.i32, .v128, .f64] = 4 := by decide
+
+theorem need_eq_slots (tys : List Ty) :
+    (tys.map fun t => if t.size < 8 then 8 else t.size).sum = 8 * totalSlots tys := by
+  induction tys with
+  | nil => rfl
+  | cons t ts ih =>
+    simp only [List.map_cons, List.sum_cons, totalSlots] at ih ⊢
+    rw [ih]
+    cases t <;> simp [Ty.size, Ty.bits, Ty.goSlots] <;> omega
+
+/-- `GoFunctionCallRequiredStackSize`: the unaligned size is exactly 8 × max(parameter slots, result slots)
+— the shared slice holds all parameters in and all results out — and the aligned size is its 16-byte round-up. -/
+theorem gocall_size_fits (ps rs : List Ty) :
+    let r := goCallRequiredStackSize ps rs
+    8 * totalSlots ps ≤ r.2 ∧ 8 * totalSlots rs ≤ r.2 ∧ (r.2 = 8 * totalSlots ps ∨ r.2 = 8 * totalSlots rs) ∧
+      r.2 ≤ r.1 ∧ r.1 < r.2 + 16 ∧ r.1 % 16 = 0 := by
+  simp only [goCallRequiredStackSize, need_eq_slots]
+  split <;> omega
+
+end Abi
+
+/-! ## Part 3: slice sizing -/
+
+/-- `Call` allocates (and `CallWithStack` demands) `max(params, results)` slots: both the parameters and
+the results fit, and nothing more is required. -/
+theorem slice_fits (p r : Nat) : p ≤ sliceSize p r ∧ r ≤ sliceSize p r ∧ (sliceSize p r = p ∨ sliceSize p r = r) := by
+  unfold sliceSize
+  split <;> omega
+
 end Wz.C08
